@@ -63,6 +63,28 @@ func (cs *ContractStore) Iterate(prefix []byte, fn func(key []byte, value []byte
 	)
 }
 
+// DeleteStorage removes every storage entry of the given account, those written in the current block included.
+func (cs *ContractStore) DeleteStorage(address ethcmn.Address) {
+	start, end := cs.storageRange(AddressStoragePrefix(address))
+	cs.State.IterateRangeUncommitted(start, end, true, func(key, _ []byte) bool {
+		cs.State.Delete(key)
+		return false
+	})
+}
+
+// storageRange returns the bounds of the store keys that start with the given prefix. The entries are keyed by
+// a hash, so the end is the smallest key behind all keys with the prefix (nil: no upper bound).
+func (cs *ContractStore) storageRange(prefix []byte) (start, end []byte) {
+	start = append(append([]byte{}, cs.prefix...), prefix...)
+	for i := len(start) - 1; i >= 0; i-- {
+		if start[i] != 0xff {
+			end = append(append(end, start[:i]...), start[i]+1)
+			break
+		}
+	}
+	return start, end
+}
+
 // AddressStoragePrefix returns a prefix to iterate over a given account storage.
 func AddressStoragePrefix(address ethcmn.Address) []byte {
 	return append(KeyPrefixStorage, address.Bytes()...)
